@@ -441,7 +441,10 @@ def main(argv):
     for k, v in stats.items():
         if k not in ev["coverage"] and k not in ("direct_violations", "shards"):
             ev["coverage"][k] = v
-    os.makedirs(os.path.join(ROOT, "evidence"), exist_ok=True)
-    with open(os.path.join(ROOT, "evidence", pid + ".json"), "w") as f:
+    # evidence/ only ever describes runs against /repo itself; runs against another checkout (VERIF_REPO,
+    # used for seeded changes) write to .work/evidence_alt/
+    evdir = os.path.join(ROOT, "evidence") if os.path.realpath(REPO) == "/repo" else os.path.join(WORK, "evidence_alt")
+    os.makedirs(evdir, exist_ok=True)
+    with open(os.path.join(evdir, pid + ".json"), "w") as f:
         json.dump(ev, f, indent=1)
     return exit_code
